@@ -12,6 +12,7 @@ import (
 	"crypto/sha256"
 	"encoding/json"
 	"fmt"
+	"sync/atomic"
 	"time"
 
 	"github.com/varlink/go/varlink"
@@ -108,6 +109,144 @@ func init() {
 				l.N(z)
 			}
 			l.S("|").N(len(gotSvc)).B(digest(toSvc)).B(digest(gotSvc)).N(len(gotCli)).B(digest(toCli)).B(digest(gotCli)).N(len(toSvc)).N(len(toCli))
+			fmt.Fprintln(e.out, l.String())
+			return nil
+		})
+	}
+}
+
+// duplex (C17, C18) — an upgraded connection used in both directions at once: a raw Read is blocked with nothing
+// in flight while another goroutine writes on the same connection. Each operation completes with its own result:
+// the Write reports the bytes it wrote, the Read returns only when the peer has sent something, and then exactly
+// those bytes.
+//
+//	duplex <side> <nwrite> <nreply> | <write n> <write ok> <read early 0/1> <read equals what the peer sent 0/1>
+type duplexIface struct {
+	side     string
+	payload  []byte
+	reply    []byte
+	res      chan [4]int
+	peerSent *int32 // set by whoever plays the peer right before it answers
+}
+
+func (u *duplexIface) VarlinkGetName() string { return "org.example.duplex" }
+func (u *duplexIface) VarlinkGetDescription() string {
+	return "interface org.example.duplex\nmethod Up() -> ()\n"
+}
+func (u *duplexIface) VarlinkDispatch(ctx context.Context, c varlink.Call, method string) error {
+	if err := c.Reply(ctx, nil); err != nil {
+		return err
+	}
+	if u.side == "service" {
+		u.res <- duplexRun(ctx, c.Conn, u.payload, u.reply, u.peerSent)
+		return fmt.Errorf("done")
+	}
+	// peer role: wait for the payload, then answer
+	got := readN(ctx, c.Conn, len(u.payload), []int{4096})
+	_ = got
+	time.Sleep(30 * time.Millisecond)
+	atomic.StoreInt32(u.peerSent, 1)
+	c.Conn.Write(ctx, u.reply)
+	time.Sleep(50 * time.Millisecond)
+	return fmt.Errorf("done")
+}
+
+// duplexRun: Read blocks first, then Write; returns {write n, write ok, read returned before the peer answered, read equal}
+func duplexRun(ctx context.Context, rw varlink.ReadWriterContext, payload, reply []byte, peerSent *int32) [4]int {
+	type rres struct {
+		b     []byte
+		early bool
+		err   error
+	}
+	rc := make(chan rres, 1)
+	go func() {
+		buf := make([]byte, len(reply)+64)
+		rctx, cancel := context.WithTimeout(ctx, 5*time.Second)
+		defer cancel()
+		n, err := rw.Read(rctx, buf)
+		// no clock involved: had the peer already started to answer when the Read came back?
+		rc <- rres{buf[:n], atomic.LoadInt32(peerSent) == 0, err}
+	}()
+	time.Sleep(20 * time.Millisecond) // the Read is blocked now, nothing is in flight
+	wctx, cancel := context.WithTimeout(ctx, 5*time.Second)
+	n, werr := rw.Write(wctx, payload)
+	cancel()
+	r := <-rc
+	out := [4]int{n, 0, 0, 0}
+	if werr == nil {
+		out[1] = 1
+	}
+	if r.early {
+		out[2] = 1
+	}
+	if r.err == nil && string(r.b) == string(reply) {
+		out[3] = 1
+	}
+	return out
+}
+
+func init() {
+	commands["duplex"] = func(e *env) error {
+		return e.each(func(i int, g *Rng) error {
+			ctx := context.Background()
+			side := []string{"client", "service"}[i%2]
+			payload := fillPayload(e.seed*31+uint64(i), []int{1, 4, 100, 5000}[g.Intn(4)])
+			reply := fillPayload(e.seed*37+uint64(i), []int{1, 9, 300}[g.Intn(3)])
+			var peerSent int32
+			u := &duplexIface{side: side, payload: payload, reply: reply, res: make(chan [4]int, 1), peerSent: &peerSent}
+			svc, err := varlink.NewService("duplex", "p", "1", "u")
+			if err != nil {
+				return err
+			}
+			if err := svc.RegisterInterface(u); err != nil {
+				return err
+			}
+			addr := fmt.Sprintf("unix:@verif-duplex-%d-%d-%d", e.seed, i, time.Now().UnixNano()%1000000)
+			if err := svc.Bind(ctx, addr); err != nil {
+				return err
+			}
+			done := make(chan error, 1)
+			go func() { done <- svc.DoListen(ctx, 0) }()
+			for t := 0; t < 3000; t++ {
+				if running, _, _, _ := svc.VerifState(); running {
+					break
+				}
+				time.Sleep(time.Millisecond)
+			}
+			c, err := varlink.NewConnection(ctx, addr)
+			if err != nil {
+				return err
+			}
+			var out [4]int
+			receive, err := c.Upgrade(ctx, "org.example.duplex.Up", nil)
+			if err == nil {
+				var o json.RawMessage
+				_, rw, err := receive(ctx, &o)
+				if err == nil {
+					if side == "client" {
+						out = duplexRun(ctx, rw, payload, reply, &peerSent)
+					} else {
+						// peer role on the client side
+						got := readN(ctx, rw, len(payload), []int{4096})
+						_ = got
+						time.Sleep(30 * time.Millisecond)
+						atomic.StoreInt32(&peerSent, 1)
+						rw.Write(ctx, reply)
+						select {
+						case out = <-u.res:
+						case <-time.After(10 * time.Second):
+						}
+					}
+				}
+			}
+			c.Close()
+			svc.Shutdown()
+			select {
+			case <-done:
+			case <-time.After(5 * time.Second):
+			}
+			l := &Line{}
+			l.S("duplex").S(side).N(len(payload)).N(len(reply)).S("|").N(out[0]).N(out[1]).N(out[2]).N(out[3])
 			fmt.Fprintln(e.out, l.String())
 			return nil
 		})
